@@ -1,4 +1,4 @@
-HOOK_COMMITS = []
+HOOK_COMMITS = ["2516bf8fd5f996277e77a9e5d5259b03bfb9c920", "abf840d2f931b420973381eff192147a6c43689e"]
 
 _PENDING = "check not built yet in this round; will be claimed when its model, theorems and correspondence stream exist (see DESIGN.md section 3)"
 NOT_APPLICABLE = {f"C{n:02d}": _PENDING for n in range(1, 21)}
